@@ -89,13 +89,23 @@ def lake_build(targets):
     return rc, out
 
 
+def prop_modules(pid):
+    """the property's theorem files: Props/<pid>.lean plus the optional continuation files listed
+    under "extra_props" (same rules: theorems only, audited the same way)"""
+    return [pid] + list(PROPS.get(pid, {}).get("extra_props", []))
+
+
 def theorem_names(pid):
-    path = os.path.join(LEAN, "Wf", "Props", pid + ".lean")
-    src = open(path).read()
-    # strip comments
-    src = re.sub(r"/-.*?-/", "", src, flags=re.S)
-    src = re.sub(r"--.*", "", src)
-    return re.findall(r"^theorem\s+([A-Za-z0-9_'.]+)", src, flags=re.M), src
+    names, srcs = [], []
+    for mod in prop_modules(pid):
+        path = os.path.join(LEAN, "Wf", "Props", mod + ".lean")
+        src = open(path).read()
+        # strip comments
+        src = re.sub(r"/-.*?-/", "", src, flags=re.S)
+        src = re.sub(r"--.*", "", src)
+        names += [(mod, n) for n in re.findall(r"^theorem\s+([A-Za-z0-9_'.]+)", src, flags=re.M)]
+        srcs.append(src)
+    return names, "\n".join(srcs)
 
 
 def audit(pid):
@@ -108,18 +118,20 @@ def audit(pid):
     os.makedirs(os.path.join(CACHE, "audit"), exist_ok=True)
     f = os.path.join(CACHE, "audit", pid + ".lean")
     with open(f, "w") as fh:
-        fh.write(f"import Wf.Props.{pid}\n")
-        for n in names:
-            fh.write(f"#print axioms Wf.Props.{pid}.{n}\n")
+        for mod in prop_modules(pid):
+            fh.write(f"import Wf.Props.{mod}\n")
+        for mod, n in names:
+            fh.write(f"#print axioms Wf.Props.{mod}.{n}\n")
     with Lock("lake"):
         rc, out = sh(["lake", "env", "lean", f], cwd=LEAN, timeout=1800)
     axioms = {}
-    cur = None
-    for m in re.finditer(r"'Wf\.Props\.%s\.([^']+)' (does not depend on any axioms|depends on axioms: \[([^\]]*)\])" % pid, out, flags=re.S):
-        name = m.group(1)
-        axs = [] if m.group(3) is None else [a.strip() for a in m.group(3).replace("\n", " ").split(",") if a.strip()]
+    for m in re.finditer(r"'Wf\.Props\.([A-Za-z0-9_]+)\.([^']+)' (does not depend on any axioms|depends on axioms: \[([^\]]*)\])", out, flags=re.S):
+        if m.group(1) not in prop_modules(pid):
+            continue
+        name = m.group(2)
+        axs = [] if m.group(4) is None else [a.strip() for a in m.group(4).replace("\n", " ").split(",") if a.strip()]
         axioms[name] = axs
-    return rc, out, names, axioms, bad_words
+    return rc, out, [n for _, n in names], axioms, bad_words
 
 
 def run_stream(wfh, fam, seed, n, pid, oracle_only=False, env=None, tag=""):
@@ -237,7 +249,7 @@ def main():
             problems.append({"kind": "translator", "key": "translator:" + " ".join(step), "detail": gout[-2000:]})
 
     # --- 2. proofs ---------------------------------------------------------------------------
-    rc_lake, out_lake = lake_build(["Wf.Props." + pid, "wfdriver"])
+    rc_lake, out_lake = lake_build(["Wf.Props." + m for m in prop_modules(pid)] + ["wfdriver"])
     proof_ok = rc_lake == 0
     failing_decl = None
     if not proof_ok:
@@ -258,7 +270,7 @@ def main():
                 problems.append({"kind": "proof", "key": "audit-missing:" + n, "detail": "no #print axioms output for " + n, "where": n})
     else:
         try:
-            names, _ = theorem_names(pid)
+            names = [n for _, n in theorem_names(pid)[0]]
         except Exception:
             names = []
     native_axioms = sorted({a for axs in axioms.values() for a in axs if a not in ALLOWED_AXIOMS})
@@ -285,6 +297,8 @@ def main():
             streams.append(s)
             # cross-build / cross-thread variants: the same stream must give identical answers
             for vi, var in enumerate(sopts.get("variants", [])):
+                if tier not in var.get("tiers", ("quick", "thorough")):
+                    continue
                 vrc, vout, vbin = build_harness(tuple(var.get("features", ())))
                 if vrc != 0:
                     problems.append({"kind": "harness-build", "key": "harness-build:" + ",".join(var.get("features", ())), "detail": vout[-1500:]})
@@ -408,7 +422,7 @@ def main():
         "coverage": {
             "obligations": max(obligations, 1),
             "discharged": discharged if obligations else 0,
-            "checker_cmd": f"cd /verif/lean && lake build Wf.Props.{pid} && lake env lean /verif/.cache/audit/{pid}.lean  # kernel re-check + #print axioms",
+            "checker_cmd": f"cd /verif/lean && lake build {' '.join('Wf.Props.' + m for m in prop_modules(pid))} && lake env lean /verif/.cache/audit/{pid}.lean  # kernel re-check + #print axioms",
             "trusted_base": [
                 "Lean 4.33.0 kernel; Mathlib v4.33.0 as shipped",
                 "axioms used by the theorems of this property: " + (", ".join(sorted({a for axs in axioms.values() for a in axs})) or "none"),
